@@ -318,10 +318,11 @@ func (c *controller) getRmnSignedObservations(
 		}
 	}
 
-	requestIDs := c.sendObservationRequests(destChain, requestsPerNode, rmnNodeInfo)
+	requestNodes := make(map[uint64]rmntypes.NodeID) // requestID -> the node the request was sent to
+	requestIDs := c.sendObservationRequests(destChain, requestsPerNode, rmnNodeInfo, requestNodes)
 
 	signedObservations, err := c.listenForRmnObservationResponses(
-		ctx, destChain, requestIDs, updateRequestsPerChain, requestedNodes, configDigest, homeFMap, rmnNodeInfo)
+		ctx, destChain, requestIDs, requestNodes, updateRequestsPerChain, requestedNodes, configDigest, homeFMap, rmnNodeInfo)
 	if err != nil {
 		return nil, fmt.Errorf("listen for rmn observation responses: %w", err)
 	}
@@ -341,6 +342,7 @@ func (c *controller) sendObservationRequests(
 	destChain *rmnpb.LaneDest,
 	requestsPerNode map[rmntypes.NodeID][]*rmnpb.FixedDestLaneUpdateRequest,
 	rmnNodeInfo map[rmntypes.NodeID]rmntypes.HomeNodeInfo,
+	requestNodes map[uint64]rmntypes.NodeID,
 ) (requestIDs mapset.Set[uint64]) {
 	requestIDs = mapset.NewSet[uint64]()
 
@@ -387,6 +389,7 @@ func (c *controller) sendObservationRequests(
 		}
 
 		requestIDs.Add(req.RequestId)
+		requestNodes[req.RequestId] = nodeID
 	}
 
 	return requestIDs
@@ -401,6 +404,7 @@ func (c *controller) listenForRmnObservationResponses(
 	ctx context.Context,
 	destChain *rmnpb.LaneDest,
 	requestIDs mapset.Set[uint64],
+	requestNodes map[uint64]rmntypes.NodeID,
 	lursPerChain map[uint64]updateRequestWithMeta,
 	requestedNodes map[uint64]mapset.Set[rmntypes.NodeID],
 	configDigest cciptypes.Bytes32,
@@ -419,7 +423,7 @@ func (c *controller) listenForRmnObservationResponses(
 	for {
 		select {
 		case resp := <-c.peerClient.Recv():
-			parsedResp, err := c.parseResponse(&resp, requestIDs, finishedRequestIDs)
+			parsedResp, err := c.parseResponse(&resp, requestIDs, finishedRequestIDs, requestNodes)
 			if err != nil {
 				c.lggr.Debugw("skipping an unexpected RMN response", "err", err)
 				continue
@@ -434,6 +438,9 @@ func (c *controller) listenForRmnObservationResponses(
 				destChain,
 				configDigest,
 			)
+			if err == nil {
+				err = validateRootLengths(parsedResp.GetSignedObservation())
+			}
 			if err != nil {
 				c.lggr.Warnw("skipping an invalid RMN observation response", "err", err)
 				initialObservationRequestTimer.Reset(0) // immediately schedule the additional requests
@@ -476,7 +483,7 @@ func (c *controller) listenForRmnObservationResponses(
 					requestsPerNode[nodeID] = append(requestsPerNode[nodeID], updateReq.Data)
 				}
 			}
-			newRequestIDs := c.sendObservationRequests(destChain, requestsPerNode, rmnNodeInfo)
+			newRequestIDs := c.sendObservationRequests(destChain, requestsPerNode, rmnNodeInfo, requestNodes)
 			requestIDs = requestIDs.Union(newRequestIDs)
 		case <-ctx.Done():
 			return nil, ErrTimeout
@@ -524,6 +531,16 @@ func gotSufficientObservationResponses(
 	return true
 }
 
+// validateRootLengths makes sure every observed root can be converted to a cciptypes.Bytes32.
+func validateRootLengths(signedObs *rmnpb.SignedObservation) error {
+	for _, lu := range signedObs.GetObservation().GetFixedDestLaneUpdates() {
+		if len(lu.GetRoot()) != len(cciptypes.Bytes32{}) {
+			return fmt.Errorf("invalid merkle root length %d", len(lu.GetRoot()))
+		}
+	}
+	return nil
+}
+
 //nolint:gocyclo // todo
 func (c *controller) validateSignedObservationResponse(
 	parsedResp *rmnpb.Response,
@@ -542,6 +559,10 @@ func (c *controller) validateSignedObservationResponse(
 		return fmt.Errorf("rmn node %d not found", rmnNodeID)
 	}
 
+	if signedObs.Observation == nil || signedObs.Observation.LaneDest == nil {
+		return errors.New("observation or lane dest is nil")
+	}
+
 	if signedObs.Observation.LaneDest.DestChainSelector != destChain.DestChainSelector {
 		return fmt.Errorf("unexpected lane dest chain selector %v", signedObs.Observation.LaneDest)
 	}
@@ -557,6 +578,10 @@ func (c *controller) validateSignedObservationResponse(
 	seenSourceChainSelectors := mapset.NewSet[uint64]()
 
 	for _, signedObsLu := range signedObs.Observation.FixedDestLaneUpdates {
+		if signedObsLu == nil || signedObsLu.LaneSource == nil || signedObsLu.ClosedInterval == nil {
+			return errors.New("lane update, lane source or closed interval is nil")
+		}
+
 		updateReq, exists := lurs[signedObsLu.LaneSource.SourceChainSelector]
 		if !exists {
 			return fmt.Errorf("unexpected source chain selector %d", signedObsLu.LaneSource.SourceChainSelector)
@@ -686,11 +711,13 @@ func (c *controller) getRmnReportSignatures(
 	}
 	remoteF := int(rmnRemoteCfg.F)
 	signers := rmnRemoteCfg.Signers
+	requestNodes := make(map[uint64]rmntypes.NodeID) // requestID -> the node the request was sent to
 	requestIDs, signersRequested, err := c.sendReportSignatureRequest(
 		reportSigReq,
 		signers,
 		remoteF,
-		rmnNodeInfo)
+		rmnNodeInfo,
+		requestNodes)
 	if err != nil {
 		return nil, fmt.Errorf("send report signature request: %w", err)
 	}
@@ -698,6 +725,7 @@ func (c *controller) getRmnReportSignatures(
 	ecdsaSignatures, err := c.listenForRmnReportSignatures(
 		ctx,
 		requestIDs,
+		requestNodes,
 		rmnReport,
 		reportSigReq,
 		signersRequested,
@@ -798,6 +826,7 @@ func (c *controller) sendReportSignatureRequest(
 	remoteSigners []rmntypes.RemoteSignerInfo,
 	remoteF int,
 	rmnNodeInfo map[rmntypes.NodeID]rmntypes.HomeNodeInfo,
+	requestNodes map[uint64]rmntypes.NodeID,
 ) (
 	requestIDs mapset.Set[uint64], signersRequested mapset.Set[rmntypes.NodeID], err error) {
 	requestIDs = mapset.NewSet[uint64]()
@@ -831,6 +860,7 @@ func (c *controller) sendReportSignatureRequest(
 		}
 
 		requestIDs.Add(req.RequestId)
+		requestNodes[req.RequestId] = rmntypes.NodeID(node.NodeIndex)
 		signersRequested.Add(rmntypes.NodeID(node.NodeIndex))
 	}
 
@@ -851,6 +881,7 @@ type reportSigWithSignerAddress struct {
 func (c *controller) listenForRmnReportSignatures(
 	ctx context.Context,
 	requestIDs mapset.Set[uint64],
+	requestNodes map[uint64]rmntypes.NodeID,
 	rmnReport cciptypes.RMNReport,
 	reportSigReq *rmnpb.ReportSignatureRequest,
 	signersRequested mapset.Set[rmntypes.NodeID],
@@ -869,7 +900,7 @@ func (c *controller) listenForRmnReportSignatures(
 	for {
 		select {
 		case resp := <-c.peerClient.Recv():
-			responseTyp, err := c.parseResponse(&resp, requestIDs, finishedRequests)
+			responseTyp, err := c.parseResponse(&resp, requestIDs, finishedRequests, requestNodes)
 			if err != nil {
 				c.lggr.Infow("failed to parse RMN signature response", "err", err)
 				continue
@@ -926,6 +957,7 @@ func (c *controller) listenForRmnReportSignatures(
 					continue
 				}
 				requestIDs.Add(req.RequestId)
+				requestNodes[req.RequestId] = rmntypes.NodeID(nodeIndex)
 				signersRequested.Add(rmntypes.NodeID(nodeIndex))
 			}
 		case <-ctx.Done():
@@ -1043,9 +1075,10 @@ func (c *controller) marshalAndSend(req *rmnpb.Request, rmnNode rmntypes.HomeNod
 }
 
 // parseResponse parses the response from the RMN and returns the response.
-// Validates that the response is expected and not a duplicate.
+// Validates that the response is expected, comes from the node the request was sent to and is not a duplicate.
 func (c *controller) parseResponse(
-	resp *PeerResponse, requestIDs, gotResponses mapset.Set[uint64]) (*rmnpb.Response, error) {
+	resp *PeerResponse, requestIDs, gotResponses mapset.Set[uint64], requestNodes map[uint64]rmntypes.NodeID,
+) (*rmnpb.Response, error) {
 	responseTyp := &rmnpb.Response{}
 	err := proto.Unmarshal(resp.Body, responseTyp)
 	if err != nil {
@@ -1055,6 +1088,11 @@ func (c *controller) parseResponse(
 	if !requestIDs.Contains(responseTyp.RequestId) {
 		return nil, fmt.Errorf(
 			"got an RMN response that we are not waiting for: %d (%s)", responseTyp.RequestId, requestIDs.String())
+	}
+
+	if requestNodes[responseTyp.RequestId] != resp.RMNNodeID {
+		return nil, fmt.Errorf("got an RMN response for request %d from node %d which is not the node it was sent to",
+			responseTyp.RequestId, resp.RMNNodeID)
 	}
 
 	if gotResponses.Contains(responseTyp.RequestId) {
